@@ -447,16 +447,74 @@ Definition plain_char (c : N) : bool :=
 Definition is_scalar_name {D} (ts : list (itype D)) (n : str) : bool :=
   match find_type n ts with Some (IType _ _ IScalar) => true | _ => false end.
 
-(* the defaults whose rendering by _format_default_value is right: null
-   anywhere; booleans, integers and strings without characters needing an
-   escape at scalar-typed positions *)
-Definition default_ok {D} (ts : list (itype D)) (t : iref) (v : pv) : Prop :=
-  match v with
-  | PNone => True
-  | PBool _ | PInt _ => is_scalar_name ts (iref_base t) = true
-  | PStr x => is_scalar_name ts (iref_base t) = true /\ forallb plain_char x = true
-  | _ => False
+(* ---- the guard on defaults, as a decidable predicate ---- *)
+
+(* text of a finite float as Python prints it / as GraphQL reads it: digits,
+   '.', 'e', 'E', '+', '-' only, at least one of '.', 'e', 'E', starting with
+   a digit or with '-' followed by a digit *)
+Definition float_text_ok (r : str) : bool :=
+  forallb is_num_char r && existsb is_float_mark r &&
+  match r with
+  | c :: r' => is_digit c || (N.eqb c 45 && match r' with d :: _ => is_digit d | [] => false end)
+  | [] => false
   end.
+
+(* some string (at any depth of a list) has a character above U+FFFF *)
+Fixpoint has_astral (v : pv) : bool :=
+  match v with
+  | PStr x => existsb (fun c => N.leb 65536 c) x
+  | PList l => (fix go (l : list pv) := match l with [] => false | x :: l' => has_astral x || go l' end) l
+  | _ => false
+  end.
+
+(* a value for which GraphQL has a literal that value_from_ast accepts at a
+   scalar-typed position: no dict (InvalidValue: "Invalid literal ObjectValue
+   for scalar type"), floats finite *)
+Fixpoint scalar_denotable (v : pv) : bool :=
+  match v with
+  | PFloat r => float_text_ok r
+  | PList l => (fix go (l : list pv) := match l with [] => true | x :: l' => scalar_denotable x && go l' end) l
+  | PDict _ => false
+  | _ => true
+  end.
+
+Definition base_def {D} (ts : list (itype D)) (t : iref) : option (itypedef D) :=
+  option_map t_def (find_type (iref_base t) ts).
+
+(* the four open-finding classes of DESIGN row 34 / known_findings.d/C15.json *)
+Definition class_enum {D} (ts : list (itype D)) (t : iref) (v : pv) : bool :=
+  match v, base_def ts t with PNone, _ => false | _, Some (IEnum _) => true | _, _ => false end.
+Definition class_input_object {D} (ts : list (itype D)) (t : iref) (v : pv) : bool :=
+  match v, base_def ts t with PNone, _ => false | _, Some (IInputObject _) => true | _, _ => false end.
+Definition class_string_escape {D} (ts : list (itype D)) (t : iref) (v : pv) : bool :=
+  match v, base_def ts t with
+  | PStr x, Some IScalar => negb (forallb plain_char x)
+  | _, _ => false
+  end.
+Definition class_astral_in_list {D} (ts : list (itype D)) (t : iref) (v : pv) : bool :=
+  match v, base_def ts t with
+  | PList _, Some IScalar => has_astral v
+  | _, _ => false
+  end.
+Definition in_open_finding {D} (ts : list (itype D)) (t : iref) (v : pv) : bool :=
+  class_enum ts t v || class_input_object ts t v || class_string_escape ts t v || class_astral_in_list ts t v.
+
+(* the default has a GraphQL literal at all: its position's named type exists
+   and, at a scalar-typed position, the value is scalar_denotable *)
+Definition denotable {D} (ts : list (itype D)) (t : iref) (v : pv) : bool :=
+  match v, base_def ts t with
+  | PNone, _ => true
+  | _, Some IScalar => scalar_denotable v
+  | _, Some (IEnum _) | _, Some (IInputObject _) => true
+  | _, _ => false
+  end.
+
+(* the guard of the exactness theorem: the default is not in an open-finding
+   class (and denotes something) *)
+Definition default_okb {D} (ts : list (itype D)) (t : iref) (v : pv) : bool :=
+  negb (in_open_finding ts t v) && denotable ts t v.
+
+Definition default_ok {D} (ts : list (itype D)) (t : iref) (v : pv) : Prop := default_okb ts t v = true.
 
 Definition input_ok (defaults : bool) (ts : list (itype pv)) (iv : iinput pv) : Prop :=
   ref_ok (iv_type iv) /\
@@ -477,6 +535,24 @@ Definition type_ok (defaults : bool) (ts : list (itype pv)) (t : itype pv) : Pro
 Definition schema_ok (defaults : bool) (s : ischema pv) : Prop :=
   Forall (type_ok defaults (s_types s)) (s_types s) /\
   Forall (fun d => Forall (input_ok defaults (s_types s)) (dr_args d)) (s_directives s).
+
+(* the same guard as a boolean function of the schema *)
+Definition ref_okb (t : iref) : bool := Nat.leb (iref_depth t) 7.
+Definition input_okb (defaults : bool) (ts : list (itype pv)) (iv : iinput pv) : bool :=
+  ref_okb (iv_type iv) &&
+  (negb defaults || match iv_default iv with Some v => default_okb ts (iv_type iv) v | None => true end).
+Definition field_okb (defaults : bool) (ts : list (itype pv)) (f : ifield pv) : bool :=
+  ref_okb (f_type f) && forallb (input_okb defaults ts) (f_args f).
+Definition type_okb (defaults : bool) (ts : list (itype pv)) (t : itype pv) : bool :=
+  match t_def t with
+  | IObject fs _ => forallb (field_okb defaults ts) fs
+  | IInterface fs => forallb (field_okb defaults ts) fs
+  | IInputObject ivs => forallb (input_okb defaults ts) ivs
+  | _ => true
+  end.
+Definition schema_okb (defaults : bool) (s : ischema pv) : bool :=
+  forallb (type_okb defaults (s_types s)) (s_types s) &&
+  forallb (fun d => forallb (input_okb defaults (s_types s)) (dr_args d)) (s_directives s).
 
 Definition full_flags : iflags := IFlags true true.
 
